@@ -104,6 +104,7 @@ fn main() {
             };
             let want_prop = arg(&args, "--prop").map(|s| s.to_string());
             let mut evaluations = 0u64;
+            let mut skipped = 0u64;
             let mut nontrivial = 0u64;
             let mut distinct: BTreeSet<u64> = BTreeSet::new();
             let mut faults: BTreeMap<String, u64> = BTreeMap::new();
@@ -122,7 +123,12 @@ fn main() {
             while idx < count {
                 let variant = &variants[(idx % variants.len() as u64) as usize];
                 let sc = scenario::generate(&profile, variant, seed, idx);
-                debug_assert!(exec::validate(&sc).is_ok());
+                if exec::validate(&sc).is_err() {
+                    // the generator produced an ill-formed layout (rare): not a scenario
+                    skipped += 1;
+                    idx += sn;
+                    continue;
+                }
                 let out = exec::execute(&sc);
                 evaluations += 1;
                 *per_variant.entry(variant.clone()).or_insert(0) += 1;
@@ -182,6 +188,7 @@ fn main() {
                     "violations": violations,
                     "other_prop_violations": other_prop_violations,
                     "samples": samples,
+                    "extra": {"scenarios_skipped_ill_formed": skipped},
                 })
             );
         }
